@@ -268,4 +268,4 @@ def run(chk):
     else:
         chk.violation("C18.timer", thc, "if timeout is not None and timeout > 0: call_at(...)", "", "the total timeout is not scheduled")
     # ---- slot (shared with C07) ---------------------------------------------------------------------------------------------------------------
-    chk.include(C07.run, ("C07.placeholder", "C07.handoff", "C07.waiterfinally"), ("C07.", "C18.slot."))
+    chk.include(C07.run, ("C07.placeholder", "C07.handoff", "C07.waiterfinally", "C07.wake.scan"), ("C07.", "C18.slot."))
